@@ -877,10 +877,59 @@ func c14R5(c *Ctx, r *Report) {
 			if _, isSl := lk.Index.(*ssa.Slice); !isSl {
 				continue // the root lookup
 			}
-			if miss := guardsMissing(f, blk, []Guard{{Name: "t != TypeDS", Op: "eq", A: func(v ssa.Value) bool { return v == f.Params[2] }, B: isConstInt(typeDS), Holds: false}}); len(miss) > 0 {
-				problems = append(problems, fmt.Sprintf("%s: a zone match is returned at once without the %s test (DS must go on to the parent)", c.pos(ret.Pos()), miss[0]))
+			// a zone match is returned at once when the type is not DS, or when it was found above the name itself
+			// (that zone holds the DS); only a match at the name itself is remembered while the walk looks for a parent
+			for _, p := range blk.Preds {
+				fs := factsAt(f, p)
+				if ef, ok := edgeFact(p, blk); ok {
+					fs = append(fs, ef)
+				}
+				notDS, above := false, false
+				for _, fc := range fs {
+					if matchGuard(fc, Guard{Op: "eq", A: func(v ssa.Value) bool { return v == f.Params[2] }, B: isConstInt(typeDS), Holds: false}) {
+						notDS = true
+					}
+					if lo, _, hasLo, _ := intervalFromFact(fc, func(v ssa.Value) bool { _, isPhi := v.(*ssa.Phi); return isPhi && anyIn(sliceOf(sl0Low(lk)), isValue(v)) }); hasLo && lo >= 1 {
+						above = true
+					}
+				}
+				if !notDS && !above {
+					problems = append(problems, fmt.Sprintf("%s: a zone match at the name itself is returned at once for a DS query (DS must go on to the parent)", c.pos(ret.Pos())))
+				}
 			}
 		}
+		// the handler remembered for a DS query is a match at the name itself (offset 0) only: a match further up is the
+		// zone that holds the DS and must be returned, not overwritten by ancestors further up still
+		allInstrs(f, func(in ssa.Instruction) {
+			phi, ok := in.(*ssa.Phi)
+			if !ok {
+				return
+			}
+			for i, e := range phi.Edges {
+				ex, ok := e.(*ssa.Extract)
+				if !ok || ex.Index != 0 {
+					continue
+				}
+				lk, ok := ex.Tuple.(*ssa.Lookup)
+				if !ok {
+					continue
+				}
+				if _, isSl := lk.Index.(*ssa.Slice); !isSl {
+					continue
+				}
+				pred := phi.Block().Preds[i]
+				offPhi := func(v ssa.Value) bool { _, isPhi := v.(*ssa.Phi); return isPhi && anyIn(sliceOf(sl0Low(lk)), isValue(v)) }
+				_, hi, _, hasHi := intervalAt(f, pred, offPhi)
+				if ef, ok := edgeFact(pred, phi.Block()); ok {
+					if _, h2, _, has2 := intervalFromFact(ef, offPhi); has2 && (!hasHi || h2 < hi) {
+						hi, hasHi = h2, true
+					}
+				}
+				if !hasHi || hi > 0 {
+					problems = append(problems, fmt.Sprintf("%s: for a DS query every further match overwrites the remembered handler: the top-most registered ancestor (and then a registered root) wins, not the enclosing parent zone", c.pos(lk.Pos())))
+				}
+			}
+		})
 		if rootLookup != nil {
 			// the root lookup is outside the walk: its block is not inside a cycle through the suffix lookup
 			var sfx ssa.Instruction
@@ -975,4 +1024,12 @@ func c14PoolSlice(c *Ctx, r *Report) {
 	if n == 0 {
 		r.note("C14.R1.pool-slice: no m[:srv.UDPSize] re-slice found")
 	}
+}
+
+// sl0Low: the low bound (offset) of a q[off:] map key.
+func sl0Low(lk *ssa.Lookup) ssa.Value {
+	if sl, ok := lk.Index.(*ssa.Slice); ok && sl.Low != nil {
+		return sl.Low
+	}
+	return lk.Index
 }
